@@ -1080,6 +1080,16 @@ def c15(tier, rng):
             nxt = s.pub(q=1)
             s.poll(nxt), s.deliver(M.puback(s.ops[nxt]["pid"])), s.poll(nxt)
             out.append(case("cancel-queued-refused-q%d-%s" % (q, why), s.script(), ["queued", "refused"]))
+    # the PUBREL request already queued when its future is dropped: the exchange the Context is committed to is finished
+    for rmax in (1, 3):
+        s = S(connack_props=[(33, rmax)])
+        a = s.pub(q=2)
+        s.poll(a), s.deliver(M.pubrec(1))
+        s.ev("hold"), s.poll(a), s.ev("dropop %d" % a), s.ev("release")
+        s.deliver(M.pubcomp(1))
+        b = s.pub(q=1)
+        s.poll(b), s.deliver(M.puback(s.ops[b]["pid"])), s.poll(b)
+        out.append(case("cancel-pubrel-queued-R%d" % rmax, s.script(), ["queued", "pubrel"]))
     # dropping a stream
     s = S()
     a, b = s.sub(b"a"), s.sub(b"b")
